@@ -24,6 +24,14 @@ CHECKS = {
              "containment itself and requires the 'malicious' kind for escaping entries; names over raw bytes (non-UTF-8 included) go through the same judgement.",
         note="Trusted: TLC, archive/zip to build archives, the gate's record of mutating calls, the no-follow snapshot.",
         technique="TLA+ path algebra + TLC exhaustive scenario enumeration; replay on real archives; TLC trace validation of backend mutations"),
+    "C03": dict(
+        category="model_checking", design_ref="DESIGN.md 5/C03",
+        text="ZipLimits.tla models archives (entries under directories, declared vs actual sizes, nested archives, zip-named non-zips) and limit configurations, computes the tree a full extraction would "
+             "leave and from it WouldExceed / ShortData, for 3128 (quick) or 183k (thorough) scenarios. Real archives are built with forged headers and nesting, extracted with UnzipWithContextAndLimits on "
+             "both backends under the gate; the tree measured on disk, the write high-water mark of every file and the result kind are judged by TLC (success => within every limit; would exceed => 'too large'; "
+             "no file ever longer than its limit or its declared size); seeded bombs with nesting to 6 and random limits around the exact totals go through the same judgement.",
+        note="Trusted: TLC, archive/zip CreateRaw to forge headers, the independent walk of the destination, per-file write accounting at the afero.Fs boundary.",
+        technique="TLA+ spec + TLC scenario enumeration with oracle; replay on real archives; TLC trace validation"),
     "C04": dict(
         category="model_checking", design_ref="DESIGN.md 5/C04",
         text="FsRemove.tla states the reference semantics of removal (rm -rf: links are leaves, exclusion protects an entry, what is beneath it and its ancestors) over a sandbox "
